@@ -239,6 +239,15 @@ fn run_history(plan: &Plan, rep: &Report) -> bool {
                     }
                     progress_tick();
                 }
+                // a gauge may end on an infinite value: it is still the last value set
+                for (i, hd) in handles.iter() {
+                    if let H::G(gauge) = hd {
+                        if *i % nup == u && rng.below(4) == 0 {
+                            gauge.set(f64::INFINITY);
+                            g.entry(*i).or_default().push(f64::INFINITY);
+                        }
+                    }
+                }
                 parts.lock().unwrap().push((c, h, g));
             })
         })
